@@ -215,3 +215,44 @@ func TestDeterministicReplay(t *testing.T) {
 		}
 	}
 }
+
+func TestCondProducerConsumer(t *testing.T) {
+	runSeeds(t, 300, Config{Race: true}, func(sim *Sim) {
+		var mu sync.Mutex
+		c := sync.NewCond(&mu)
+		queue := new([]int)
+		got := new(int)
+		var wg sync.WaitGroup
+		for i := 0; i < 3; i++ {
+			WGAdd(&wg, 1, 0)
+			Go(0, func() {
+				Lock(&mu, 0)
+				for len(*R(queue, 1)) == 0 {
+					CondWait(c, 0)
+				}
+				*W(queue, 2) = (*R(queue, 3))[1:]
+				*W(got, 4) = *R(got, 5) + 1
+				Unlock(&mu, 0)
+				WGDone(&wg, 0)
+			})
+		}
+		for i := 0; i < 3; i++ {
+			Lock(&mu, 0)
+			*W(queue, 6) = append(*R(queue, 7), i)
+			Unlock(&mu, 0)
+			if i%2 == 0 {
+				CondSignal(c, 0)
+			} else {
+				CondBroadcast(c, 0)
+			}
+		}
+		WGWait(&wg, 0)
+		if *R(got, 8) != 3 {
+			panic("lost item")
+		}
+	}, func(seed int, rep *Report) {
+		if len(rep.Races) != 0 || rep.Deadlock != "" || len(rep.Panics) != 0 {
+			t.Fatalf("seed %d: races=%v deadlock=%q panics=%v", seed, rep.Races, rep.Deadlock, rep.Panics)
+		}
+	})
+}
